@@ -517,6 +517,10 @@ func (p *plugin) OnEstablished(pc corebgp.PeerConfig, wr corebgp.UpdateMessageWr
 		if p.ps.spec.Plugin.HandlerNotifOn == calls {
 			n = p.ps.spec.Plugin.HandlerNotif.core()
 		}
+		// a "magic" UPDATE makes the handler return the Notification it spells out
+		if len(u) >= 6 && u[0] == 0xEE && u[1] == 'N' && u[2] == 'O' && u[3] == 'T' {
+			n = &corebgp.Notification{Code: u[4], Subcode: u[5], Data: append([]byte(nil), u[6:]...)}
+		}
 		p.w.Rec.add(Ev{K: "upd-", Peer: peer, N: sess, Err: n != nil})
 		return n
 	}
@@ -667,4 +671,10 @@ func (w *World) Dump() string {
 		s = s[:6000] + "...\n"
 	}
 	return s
+}
+
+// MagicUpdate is an UPDATE body that makes the recording plugin's handler
+// return the given Notification.
+func MagicUpdate(code, sub uint8, data []byte) []byte {
+	return append([]byte{0xEE, 'N', 'O', 'T', code, sub}, data...)
 }
